@@ -40,6 +40,8 @@ impl TearableAtomic for TearableAtomicTime {
         // Write each field separately. This can never create invalid values of
         // a `MonotonicTime`, even if the store is torn.
         self.secs.store(value.as_secs(), Ordering::Relaxed);
+        #[cfg(feature = "verif-hooks")]
+        crate::verif_hooks::delay(crate::verif_hooks::site::T2);
         self.nanos.store(value.subsec_nanos(), Ordering::Relaxed);
     }
 }
